@@ -179,3 +179,10 @@ package types
 //@ props C18 C13
 //@ theory coins keys bytes
 //@ ensures exact: result == pbytes(POwnerEarned(owner))
+
+//@ func getStringsKey
+//@ props C18 C15
+//@ theory coins keys bytes
+//@ loop 0 invariant seen: 0 <= iter && iter <= len(ss)
+//@ loop 0 invariant acc: result == joinZ(ss, iter)
+//@ ensures exact: result == strsKey(ss)
